@@ -861,6 +861,11 @@ func (x *Exec) havocRegion(st *State, sc *scope, region, callee string) {
 	case strings.HasPrefix(region, "*"):
 		if v, ok := sc.vars[region[1:]]; ok {
 			x.havocObject(st, v)
+		} else if e, err := ParseExpr(region[1:]); err == nil {
+			// "*p.F": the object a pointer field of a parameter refers to
+			if v, err := x.evalSpec(st, nil, e, sc); err == nil && v.T.Sort == SRef && v.Typ != nil {
+				x.havocObject(st, v)
+			}
 		}
 	case strings.HasPrefix(region, "elems(") && strings.HasSuffix(region, ")"):
 		if v, ok := sc.vars[region[6:len(region)-1]]; ok && v.T.Sort == SSlice {
